@@ -296,7 +296,7 @@ ensures
        let m1 = (match player_num { PlayerNum::One => final(single_infosets)[0]@, PlayerNum::Two => final(single_infosets)[1]@ });
        !(m0.contains_key(infoset) && m0[infoset] != actions@[0]) ==> out == rec_spec(nexts@[0], prev_infosets)
            && m1 == (if m0.contains_key(infoset) { m0 } else { m0.insert(infoset, actions@[0]) }) }), // @ob C11.V.init_recurse.single_action_recorded_once"""),
-        dict(file="src/lib.rs", path="impl Game / fn init_recurse", loop=1, n_loops=3,
+        dict(file="src/lib.rs", path="impl Game / fn init_recurse", loop=2, n_loops=3,
              header_re=r"^for \(action, next\) in raw_actions$",
              as_fn="init_recurse__collect_action", generics="<A, T>",
              params="action: A, next: T, actions: &mut Vec<A>, nexts: &mut Vec<T>",
